@@ -43,6 +43,11 @@ CHECKS = {
                   'is bit-identical to the exact quotient rounded once.  Counterexamples are replayed on the real kernel.',
              note='Trusted: z3/cvc5, kbmc translator and C typing rules (validated against the compiled module), the assume-guarantee cut after the merge loop, specs/jaccard_spec.py.',
              ref='3/C02'),
+ 'C14': dict(engine='X', technique='CrossHair/z3-driven exhaustive case split over the option and parameter space of the real click callbacks (dist, query, signatures create, tree) with recording stubs; end-to-end CLI replay',
+             text='For every way of supplying each side and every choice of k-mer parameters from a pool (differing in k, prefix, both; explicit -k/-p absent, incomplete, matching, '
+                  'mismatching), the real callback either raises ClickException before any distance call or write, or uses one and the same KmerSpec on both sides.',
+             note='Trusted: CrossHair path exhaustion over the finite space; the recording stubs; click option parsing is outside.',
+             ref='3/C14'),
  'C15': dict(engine='K', technique='bounded model checking of the translated metric kernel (QF_BV / QF_FP, UF abstraction for congruence obligations) + exact spec-level triangle inequality over bitmask sets',
              text='Range, d=0 iff equal, d=1 iff disjoint, bit-exact symmetry, width independence and monotonicity are decided by SMT on the translated kernel '
                   '(float stage over all N,M,u within the stated width, integer stage over all arrays within the length bound); triangle inequality exactly over all subsets of a small universe.',
